@@ -951,13 +951,31 @@ namespace bloch::runtime {
                 if (clsNode && clsNode->typeParameters.empty())
                     pending.emplace(clsNode->name, clsNode.get());
             }
-            auto declaredBase = [](const compiler::ClassDeclaration* node) -> std::string {
-                if (auto named = dynamic_cast<NamedType*>(node->baseType.get())) {
-                    if (named->typeArguments.empty() && !named->nameParts.empty())
-                        return named->nameParts.back();
-                    return "";
+            // The nearest non-generic class on a class's chain of bases. A generic base is
+            // instantiated on demand while the class is populated and copies the layout of
+            // its own base at that moment, so the chain is followed through the templates.
+            auto declaredBase = [this](const compiler::ClassDeclaration* node) -> std::string {
+                for (int depth = 0; node && depth < 64; ++depth) {
+                    std::string name;
+                    bool generic = false;
+                    if (auto named = dynamic_cast<NamedType*>(node->baseType.get())) {
+                        if (named->nameParts.empty())
+                            return "";
+                        name = named->nameParts.back();
+                        generic = !named->typeArguments.empty();
+                    } else if (!node->baseName.empty()) {
+                        name = node->baseName.back();
+                    } else {
+                        return "";
+                    }
+                    auto tmpl = m_genericTemplates.find(name);
+                    if (!generic && tmpl == m_genericTemplates.end())
+                        return name;
+                    if (tmpl == m_genericTemplates.end())
+                        return "";
+                    node = tmpl->second;
                 }
-                return node->baseName.empty() ? "" : node->baseName.back();
+                return "";
             };
             bool progress = true;
             while (!pending.empty() && progress) {
